@@ -184,6 +184,16 @@ func (x *Exec) atReturn(st *State, res []Val) {
 		A := And(as...)
 		allAssumes = append(allAssumes, A)
 		x.addCover("cover:"+b.Name, st.pc, A)
+		// each conditional relay of the behaviour must be reachable both ways (emitted / suppressed):
+		// otherwise the obligations about it were discharged on no path at all
+		for k, p := range b.Emits {
+			if p.Cond == nil || p.Maybe {
+				continue
+			}
+			c := oenv.evalBool(p.Cond)
+			x.addCover(fmt.Sprintf("cover:%s:when%d", b.Name, k+1), st.pc, And(A, c))
+			x.addCover(fmt.Sprintf("cover:%s:unless%d", b.Name, k+1), st.pc, And(A, Not(c)))
+		}
 		// emits first: bind(...) patterns introduce names the ensures clauses may use
 		benv := env.child()
 		x.bindEmitNames(st, benv, b.Emits)
@@ -257,7 +267,8 @@ func (x *Exec) frameObligations(st *State, env *Env) {
 			excl = append(excl, Neq(i, idx))
 		}
 		goal := Forall([]Term{i}, Implies(And(append([]Term{Ge(i, TZero), Le(i, x.entry.alloc)}, excl...)...), Eq(Select(cur, i), Select(base, i))))
-		st.oblige("frame:"+name, x.tagsFor(nil, x.spec.Tags), goal, "only the declared frame is modified ("+name+")")
+		ftags := append(append([]string(nil), x.spec.Tags...), x.spec.ModTags...)
+		st.oblige("frame:"+name, ftags, goal, "only the declared frame is modified ("+name+")")
 	}
 }
 
